@@ -112,7 +112,7 @@ fn check_case(win: Win, steps: &[(u64, i64)], far_after: Option<usize>) -> Optio
 
 fn build(tier: Tier) -> Vec<Scenario> {
     let len = match tier {
-        Tier::Quick => 4,
+        Tier::Quick => 5,
         Tier::Thorough => 6,
     };
     let mut wins = vec![];
